@@ -227,6 +227,10 @@ class Engine:
                 st.assume(t > 0)
             else:
                 st.assume(t >= 0)
+            if ty.cls in self.table.classes:
+                # typed heap: stores into this field were checked against the declared class
+                inst = self.isinstance_ref(t, ty.cls)
+                st.assume(z3.Or(t == 0, inst) if ty.nullable else inst)
         return sv
 
     def store_field(self, st, ref, cls, name, val, what="store"):
@@ -1135,6 +1139,8 @@ class Engine:
             return [(s, mk_bool(self.to_obj(a) == self.to_obj(b)))]
         if ka == "seq" and kb == "seq":
             return [(s, mk_bool(a.t == b.t))]
+        if ka == "map" and kb == "map":
+            return [(s, mk_bool(a.t == b.t))]
         if ka != kb:
             return [(s, mk_bool(False))]
         raise Unsupported("== on %r, %r" % (a.ty, b.ty))
@@ -1250,7 +1256,34 @@ class Engine:
             raise Unsupported("attribute %s.%s (declare the field in the sidecar)" % (cls, attr))
         if k == "exc":
             raise Unsupported("attribute of exception")
+        if k == "obj":
+            if self.spec:
+                raise Unsupported("attribute %s of a dynamic value in a spec (use asref)" % attr)
+            r = self.refine_to_ref(o, attr, s)
+            if r is not None:
+                return self.getattr(r, attr, s)
+            # not provably an instance of a class that has the attribute
+            return self.implicit(s, "AttributeError", True, lambda s2: [])
         raise Unsupported("attribute %s on %r" % (attr, o.ty))
+
+    def refine_to_ref(self, o, attr, s):
+        """A dynamic value used as ``o.attr``: find the most general class of the table that has
+        ``attr`` (field, property or method) and of which the path condition proves o to be an
+        instance; return o as a typed reference."""
+        cands = []
+        for cname in self.table.classes:
+            ci = self.table.classes[cname]
+            own = attr in ci.methods or attr in self.reg.fields.get(cname, {})
+            if own:
+                cands.append(cname)
+        # most general first
+        cands.sort(key=lambda c: len(self.table.mro(c)))
+        for c in cands:
+            goal = z3.And(PyObj.is_O_ref(o.t), self.isinstance_ref(PyObj.rval(o.t), c))
+            st, _, _, _, _ = self.prover.check(s.pc, goal, want_model=False, timeout_ms=1500)
+            if st == "proved":
+                return SV(REF(c), PyObj.rval(o.t))
+        return None
 
     def ev_Subscript(self, node, st):
         outs = []
@@ -1342,6 +1375,9 @@ class Engine:
         if sv.ty.kind == "ref":
             st.assume(sv.t < self.A0 + st.nalloc)
             st.assume(sv.t > 0 if not sv.ty.nullable else sv.t >= 0)
+            if sv.ty.cls in self.table.classes:
+                inst = self.isinstance_ref(sv.t, sv.ty.cls)
+                st.assume(z3.Or(sv.t == 0, inst) if sv.ty.nullable else inst)
         elif sv.ty.kind == "tup":
             for it in self.unpack(sv):
                 self.assume_wf_value(st, it)
